@@ -248,6 +248,13 @@ class Pkg(object):
                                 mod.assigns.setdefault(t.id, []).append(st.value)
                             else:
                                 cls.class_assigns[t.id] = st.value
+                        elif isinstance(t, (ast.Tuple, ast.List)) and cls is None and all(isinstance(e, ast.Name) for e in t.elts):
+                            # `A, B = <expr>` at module level: A is <expr>[0], B is <expr>[1] (for the constant folder)
+                            for k, e in enumerate(t.elts):
+                                sub = ast.Subscript(value=st.value, slice=ast.Constant(value=k), ctx=ast.Load())
+                                ast.copy_location(sub, st.value)
+                                ast.fix_missing_locations(sub)
+                                mod.assigns.setdefault(e.id, []).append(sub)
                 elif isinstance(st, (ast.Import, ast.ImportFrom)) and cls is None:
                     self._imports(mod, st)
                 elif isinstance(st, (ast.Try, ast.If)) and cls is None:
